@@ -292,7 +292,7 @@ func snapToJSON(s SnapEntry) map[string]interface{} {
 		m["x"] = xs
 	}
 	if s.Content != nil {
-		m["data"] = hx(string(s.Content))
+		m["sha"] = shaShort(s.Content)
 	}
 	return m
 }
